@@ -7,26 +7,6 @@ NOTES = ("Technique family: machine-checked proof in Rocq (Coq 8.16.1). Each pro
          "(ExtrOcamlBasic only) and run on the same inputs/histories as the real code (harness/, built from /repo's "
          "working tree with --cfg anydb_verif). See DESIGN.md.")
 
-ENGINES = [
-    dict(name="codec", path="harness/src/codec.rs + ocaml/eng_codec.ml", serves_properties=["C17"],
-         kind_free_text="differential: real decoders/encoders vs extracted Coq codecs, plus implementation-only round-trip/validity oracles"),
-]
-
 NOT_YET = "machinery for this property is not built yet in this round (planned in DESIGN.md section 10); no claim is made"
 NOT_APPLICABLE = {f"C{i:02d}": NOT_YET for i in range(1, 21)}
 
-TEXT = {
-    "C17": dict(
-        design_ref="DESIGN.md section 4, C17",
-        technique="Coq proof of codec round-trip/totality + extracted-model differential",
-        text=("Proof: Coq theorems C17_* (Props/C17.v) state, for ALL byte strings and ALL field values, that the "
-              "region-metadata, vector-header, Format, page-index and numeric/byte-array codecs round-trip every valid "
-              "value, that decoding returns an error or a value satisfying the validity rules and never panics, that the "
-              "id allocation is bounded by the input, and that Regions::fill decodes each slot from its own bytes only "
-              "(invalid slots skipped). The models use offsets/limits regenerated from the source on every run and are "
-              "validated against the real decoders differentially (debug and release builds)."),
-        note=("Trusted: Coq kernel; the translator gen_consts.py; extraction (ExtrOcamlBasic) and the OCaml driver; the "
-              "Rust harness. The Rust code itself is modelled, not verified: the tie is the regenerated constants plus "
-              "differential agreement on generated inputs (bounded sample). Rollback change-record codecs are handled under C16."),
-    ),
-}
